@@ -53,21 +53,8 @@ theorem agree_iter (its : Iters) (S : List String) (ρf σf : Env)
 /-! ## `expandVars`, block by block -/
 
 /-- the variables one source block contributes -/
-def vSeg (fuel : Nat) (st : STree) (inherited : List String) : SBlock → List String
-  | .static t ls body =>
-    if (st.schema.blocks.any fun bs => bs.type == t && bs.labelCount == ls.length) then
-      match st.child t with
-      | some cst => expandVars fuel cst inherited body
-      | none => []
-    else []
-  | .dyn t fe itn labels content =>
-    if (st.schema.blocks.any (·.type == t)) then
-      (fv fe).filter (fun x => !inherited.contains x) ++
-      ((labels.getD []).map fv).flatten.filter (fun x => x != itn.getD t && !inherited.contains x) ++
-      (match st.child t with
-        | some cst => expandVars fuel cst (itn.getD t :: inherited) content
-        | none => [])
-    else []
+def vSeg (fuel : Nat) (st : STree) (inherited : List String) (blk : SBlock) : List String :=
+  expandVars (fuel + 1) st inherited (.mk [] [blk])
 
 theorem expandVars_succ (fuel : Nat) (st : STree) (inherited : List String) (attrs : List (String × Expr))
     (blocks : List SBlock) :
@@ -76,8 +63,40 @@ theorem expandVars_succ (fuel : Nat) (st : STree) (inherited : List String) (att
   congr 1
   apply List.map_congr_left
   intro blk _
-  cases blk <;> rfl
+  simp only [vSeg, expandVars, List.map_cons, List.map_nil, List.flatten_cons, List.flatten_nil, List.append_nil]
 
+theorem vSeg_static {fuel : Nat} {st : STree} {inh : List String} {t : String} {ls : List String} {body : SBody}
+    {cst : STree}
+    (hany : (st.schema.blocks.any fun bs => bs.type == t && bs.labelCount == ls.length) = true)
+    (hc : st.child t = some cst) :
+    vSeg fuel st inh (.static t ls body) = expandVars fuel cst inh body := by
+  simp only [vSeg, expandVars, List.map_cons, List.map_nil, List.flatten_cons, List.flatten_nil, List.append_nil,
+    hany, if_true, hc]
+
+theorem mem_vSeg_dyn {fuel : Nat} {st : STree} {inh : List String} {t : String} {fe : Expr} {itn : Option String}
+    {labels : Option (List Expr)} {content : SBody} (x : String) :
+    (x ∈ fv fe → x ∉ inh → x ∈ vSeg fuel st inh (.dyn t fe itn labels content)) ∧
+    (∀ e ∈ labels.getD [], x ∈ fv e → x ≠ itn.getD t → x ∉ inh → x ∈ vSeg fuel st inh (.dyn t fe itn labels content)) ∧
+    (∀ cst, st.child t = some cst → x ∈ expandVars fuel cst (itn.getD t :: inh) content →
+      x ∈ vSeg fuel st inh (.dyn t fe itn labels content)) := by
+  have e : vSeg fuel st inh (.dyn t fe itn labels content) =
+      (fv fe).filter (fun x => !inh.contains x) ++
+      ((labels.getD []).map fv).flatten.filter (fun x => x != itn.getD t && !inh.contains x) ++
+      (match st.child t with
+        | some cst => expandVars fuel cst (itn.getD t :: inh) content
+        | none => []) := by
+    simp only [vSeg, expandVars, List.map_cons, List.map_nil, List.flatten_cons, List.flatten_nil, List.append_nil] <;> rfl
+  rw [e]
+  simp only [List.mem_append, List.mem_filter, List.mem_flatten, List.mem_map, Bool.and_eq_true, bne_iff_ne, ne_eq,
+    Bool.not_eq_true', List.contains_eq_mem, decide_eq_false_iff_not]
+  refine ⟨?_, ?_, ?_⟩
+  · intro h1 h2
+    exact Or.inl (Or.inl ⟨h1, h2⟩)
+  · intro e he h1 h2 h3
+    exact Or.inl (Or.inr ⟨⟨_, ⟨e, he, rfl⟩, h1⟩, h2, h3⟩)
+  · intro cst hc h1
+    rw [hc]
+    exact Or.inr h1
 theorem mem_expandVars_succ {fuel : Nat} {st : STree} {inherited : List String} {src : SBody} {blk : SBlock}
     {x : String} (hblk : blk ∈ src.blocks) (hx : x ∈ vSeg fuel st inherited blk) :
     x ∈ expandVars (fuel + 1) st inherited src := by
@@ -126,20 +145,38 @@ theorem decodeSpec_agree (ρf σf : Env) (its : Iters) (lc : Nat) (t : String) (
 
 end frame
 
+def specInfo : SpecRes → Option (String × List Expr)
+  | .err _ => none
+  | .known n _ l _ => some (n, l)
+  | .unknown n _ l => some (n, l)
+
+theorem decodeSpec_info (ev : Env → Expr → Out) (ρf : Env) (its : Iters) (lc : Nat) (t : String) (fe : Expr)
+    (itn : Option String) (labels : Option (List Expr)) :
+    specInfo (decodeSpec ev ρf its lc t fe itn labels) = none ∨
+    specInfo (decodeSpec ev ρf its lc t fe itn labels) = some (itn.getD t, labels.getD []) := by
+  unfold decodeSpec
+  split
+  · left; rfl
+  · split
+    · left; rfl
+    · simp only
+      repeat' split
+      all_goals first | (left; rfl) | (right; rfl)
+
 theorem decodeSpec_name (ev : Env → Expr → Out) (ρf : Env) (its : Iters) (lc : Nat) (t : String) (fe : Expr)
     (itn : Option String) (labels : Option (List Expr)) :
     (∀ name m lexprs kvs, decodeSpec ev ρf its lc t fe itn labels = .known name m lexprs kvs →
       name = itn.getD t ∧ lexprs = labels.getD []) ∧
     (∀ name m lexprs, decodeSpec ev ρf its lc t fe itn labels = .unknown name m lexprs →
       name = itn.getD t ∧ lexprs = labels.getD []) := by
-  unfold decodeSpec
+  have h := decodeSpec_info ev ρf its lc t fe itn labels
   constructor
-  · intro name m lexprs kvs h
-    repeat' split at h
-    all_goals first | (simp only [SpecRes.known.injEq] at h; exact ⟨h.1.symm, h.2.2.1.symm⟩) | simp at h
-  · intro name m lexprs h
-    repeat' split at h
-    all_goals first | (simp only [SpecRes.unknown.injEq] at h; exact ⟨h.1.symm, h.2.2.symm⟩) | simp at h
+  · intro name m lexprs kvs hd
+    rw [hd] at h
+    simpa [specInfo] using h
+  · intro name m lexprs hd
+    rw [hd] at h
+    simpa [specInfo] using h
 
 /-- where the blocks of a dynamic block come from -/
 theorem expandDyn_mem (ev : Env → Expr → Out) (ρf : Env) (its : Iters) (lc : Nat) (t : String) (fe : Expr)
@@ -190,26 +227,17 @@ theorem xSeg_agree (ρf σf : Env) (its : Iters) (st : STree) (fuel : Nat) (blk 
     cases hf : st.schema.blocks.find? (fun b => b.type == t) with
     | none => rfl
     | some bs =>
-      have hany : st.schema.blocks.any (fun b => b.type == t) = true := by
-        rw [List.any_eq_true]
-        exact ⟨bs, List.mem_of_find?_eq_some hf, List.find?_some hf⟩
-      simp only [vSeg, hany, if_true] at h
       simp only
       apply expandDyn_agree ev hev
       · intro x hx hn
-        apply h x
-        simp only [List.mem_append, List.mem_filter]
-        exact Or.inl (Or.inl ⟨hx, by simpa using hn⟩)
+        exact h x ((mem_vSeg_dyn x).1 hx hn)
       · intro e he x hx hne hn
-        apply h x
-        simp only [List.mem_append, List.mem_filter, List.mem_flatten, List.mem_map]
-        refine Or.inl (Or.inr ⟨⟨fv e, ⟨e, he, rfl⟩, hx⟩, ?_⟩)
-        simpa using ⟨hne, hn⟩
+        exact h x ((mem_vSeg_dyn x).2.1 e he hx hne hn)
 
 end frame2
 
 /-- where the blocks of one source block come from, and which variables their own expansion needs -/
-theorem xSeg_mem (ev : Env → Expr → Out) (ρf : Env) (its : Iters) (st : STree) (hst : st.ok = true) (fuel : Nat)
+theorem xSeg_mem (ev : Env → Expr → Out) (ρf : Env) (its : Iters) (st : STree) (fuel : Nat)
     (blk : SBlock) (hblk : BlockOk blk) (xb : XBlock) (h : xb ∈ xSeg ev ρf its [] st.schema blk) :
     xb.body.src.ok = true ∧ xb.body.hiddenBlocks = [] ∧
     ∀ cst, st.child xb.type = some cst →
@@ -229,9 +257,8 @@ theorem xSeg_mem (ev : Env → Expr → Out) (ρf : Env) (its : Iters) (st : STr
           rw [List.any_eq_true]
           obtain ⟨hm, ht⟩ := wanted_some hw
           exact ⟨bs, hm, by simp [ht, hl]⟩
-        simp only [vSeg, hany, if_true]
         simp only at hc
-        rw [hc]
+        rw [vSeg_static hany hc]
         exact hx
       · simp at h
     · simp at h
@@ -243,15 +270,9 @@ theorem xSeg_mem (ev : Env → Expr → Out) (ρf : Env) (its : Iters) (st : STr
       obtain ⟨h1, h2, _, h4, k, v, h5⟩ := expandDyn_mem _ _ _ _ _ _ _ _ _ _ h
       refine ⟨by rw [h2]; exact hblk.2, h4, ?_⟩
       intro cst hc x hx
-      have hany : st.schema.blocks.any (fun b => b.type == t) = true := by
-        rw [List.any_eq_true]
-        exact ⟨bs, List.mem_of_find?_eq_some hf, List.find?_some hf⟩
-      simp only [vSeg, hany, if_true]
       rw [h1] at hc
-      rw [hc]
       rw [h2, h5] at hx
-      simp only [List.mem_append]
-      exact Or.inr hx
+      exact (mem_vSeg_dyn x).2.2 cst hc hx
 
 /-! ## a level, with the `unknownBody` wrapper -/
 
@@ -260,19 +281,27 @@ def fixB : Option Fl → XBlock → XBlock
   | none, blk => blk
   | some um, blk => { blk with body := { blk.body with unknown := some um } }
 
+theorem fixB_none : fixB none = id := by funext blk; rfl
+
 theorem contentCore_blocks_gen (ev : Env → Expr → Out) (ρf : Env) (b : XBody) (s : Schema) (pm : Bool)
     (hdyn : ∀ bs ∈ b.hiddenBlocks, bs.type ≠ "dynamic") (hst : StaticOk b.src.blocks) :
     (b.contentCore ev ρf s pm).1.blocks =
       (b.src.blocks.flatMap (xSeg ev ρf b.its b.hiddenBlocks s)).map (fixB b.unknown) := by
   cases hu : b.unknown with
   | none =>
-    rw [contentCore_blocks ev ρf b s pm hu hdyn hst]
-    simp [fixB]
+    rw [contentCore_blocks ev ρf b s pm hu hdyn hst, fixB_none, List.map_id]
   | some um =>
-    rw [contentCore_unknown' ev ρf b um s pm hu,
-      show (fixupUnknown um ({ b with unknown := none }.contentCore ev ρf s pm).1).blocks =
-        ({ b with unknown := none }.contentCore ev ρf s pm).1.blocks.map (fixB (some um)) from rfl,
-      contentCore_blocks ev ρf { b with unknown := none } s pm rfl hdyn hst]
+    rw [contentCore_unknown' ev ρf b um s pm hu]
+    simp only [fixupUnknown]
+    rw [contentCore_blocks ev ρf { b with unknown := none } s pm rfl hdyn hst]
+    rfl
+
+theorem flatMap_congr' {α β : Type} (f g : α → List β) (l : List α) (h : ∀ a ∈ l, f a = g a) :
+    l.flatMap f = l.flatMap g := by
+  induction l with
+  | nil => rfl
+  | cons a l ih =>
+    rw [List.flatMap_cons, List.flatMap_cons, h a (by simp), ih (fun a' ha' => h a' (by simp [ha']))]
 
 theorem filterMap_congr' {α β : Type} (f g : α → Option β) (l : List α) (h : ∀ a ∈ l, f a = g a) :
     l.filterMap f = l.filterMap g := by
@@ -289,13 +318,16 @@ def gX (F : STree → XBody → Shape) (st : STree) (blk : XBlock) : Option (Str
 theorem shapeX_succ (ev : Env → Expr → Out) (ρf : Env) (n : Nat) (st : STree) (b : XBody) :
     shapeX ev ρf (n + 1) st b = .mk ((b.content ev ρf st.schema).1.blocks.filterMap (gX (shapeX ev ρf n) st)) := rfl
 
+theorem shapeX_zero (ev : Env → Expr → Out) (ρf : Env) (st : STree) (b : XBody) :
+    shapeX ev ρf 0 st b = .mk [] := rfl
+
 theorem expand_vars_sufficient_gen (ev : Env → Expr → Out)
     (hev : ∀ e ρ σ, AgreeOn (fv e) ρ σ → ev ρ e = ev σ e) (ρf σf : Env) (n : Nat) :
     ∀ (st : STree) (b : XBody), st.ok = true → b.src.ok = true → b.hiddenBlocks = [] →
       AgreeOn (expandVars n st (b.its.map (·.1)) b.src) ρf σf →
       shapeX ev ρf n st b = shapeX ev σf n st b := by
   induction n with
-  | zero => intros; rfl
+  | zero => intros; rw [shapeX_zero, shapeX_zero]
   | succ n ih =>
     intro st b hst hsrc hhid h
     have hb : okAll b.src.blocks = true := SBody.ok_blocks hsrc
@@ -308,7 +340,7 @@ theorem expand_vars_sufficient_gen (ev : Env → Expr → Out)
     -- the same blocks at this level
     have hlev : b.src.blocks.flatMap (xSeg ev ρf b.its [] st.schema) =
         b.src.blocks.flatMap (xSeg ev σf b.its [] st.schema) := by
-      apply List.flatMap_congr
+      apply flatMap_congr'
       intro blk hblk
       apply xSeg_agree ev hev ρf σf b.its st n blk
       intro x hx
@@ -319,14 +351,14 @@ theorem expand_vars_sufficient_gen (ev : Env → Expr → Out)
     intro xb hxb
     obtain ⟨xb0, hxb0, rfl⟩ := List.mem_map.1 hxb
     obtain ⟨blk, hblk, hseg⟩ := List.mem_flatMap.1 hxb0
-    obtain ⟨h1, h2, h3⟩ := xSeg_mem ev ρf b.its st hst n blk (hb' blk hblk) xb0 hseg
+    obtain ⟨h1, h2, h3⟩ := xSeg_mem ev ρf b.its st n blk (hb' blk hblk) xb0 hseg
     have hty : (fixB b.unknown xb0).type = xb0.type := by cases b.unknown <;> rfl
     have hsrc' : (fixB b.unknown xb0).body.src = xb0.body.src := by cases b.unknown <;> rfl
     have hits' : (fixB b.unknown xb0).body.its = xb0.body.its := by cases b.unknown <;> rfl
     have hhb' : (fixB b.unknown xb0).body.hiddenBlocks = xb0.body.hiddenBlocks := by cases b.unknown <;> rfl
     simp only [gX, hty]
     cases hc : st.child xb0.type with
-    | none => rfl
+    | none => simp only [Option.map_none]
     | some cst =>
       simp only [Option.map_some]
       rw [ih cst (fixB b.unknown xb0).body (STree.ok_child hst hc) (by rw [hsrc']; exact h1) (by rw [hhb']; exact h2)]
